@@ -190,3 +190,7 @@ Proof. split; vm_compute; reflexivity. Qed.
 (* the hypothesis about zstd is satisfiable (toy codec) *)
 Example C15_ex_oracle_hyp_satisfiable : zstd_roundtrip_hyp toy_c toy_d toy_f.
 Proof. exact toy_ok. Qed.
+
+(* assumptions of the theorems above that had no report next to them *)
+Print Assumptions C15_limit_pinned.
+Print Assumptions C15_current_is_fixed.
